@@ -37,6 +37,12 @@ def run(rep, ctx, tier):
             if info is a.info:
                 for callee in T.VK_CALLS.get(sk, []):
                     comps.append(("vkcall:%s" % callee.rsplit("::", 1)[-1], ("callres", callee)))
+        # degree-bound parts of the commitment (the relation mentions them in the bound-enforcing schemes)
+        db = a.info.get("degree_bound") if isinstance(a.info, dict) else None
+        if db and a.method in ("check", "batch_check"):
+            comps.append(("degree_bound", ("field", T.LC, "degree_bound", ["usize"])))
+            if "shifted" in db:
+                comps.append(("shifted_comm", ("field", db["shifted"][0], db["shifted"][1], db["shifted_payload"])))
         for name, comp in comps:
             ok, detail, where, n = R1.component(ctx, a, comp, cut_sponge=True)
             rep.add("R1", "%s:%s" % (a.key, name), ok, detail, where or a.body.span, nontrivial=n > 0)
